@@ -311,6 +311,13 @@ def f3_files(tier, daqmx=True, scaled=True):
                 out.append(('daqmx/%d/x%d' % (nb, chunks),
                             [G.seg([(A, a, DAQMX_SCALE_PROPS), (B, b, [_uprop('NI_Number_Of_Scales', 1)])], chunks=chunks),
                              G.seg([], meta=False, chunks=1)]))
+        # channels whose scalers do not start at id 0 (a: ids 1 and 2 with a Linear scale 3 over scale 2; b: id 1 only)
+        for chunks in (1, 3):
+            a = daqmx_enc(2, [(5, 0, 2, 0, 1), (2, 0, 6, 0, 2)], [8])
+            b = daqmx_enc(2, [(3, 0, 0, 0, 1)], [8])
+            pa = [_uprop('NI_Number_Of_Scales', 4)] + linear_props(3, 2.0, 1.0, 2)
+            out.append(('daqmx/ids-from-1/x%d' % chunks,
+                        [G.seg([(A, a, pa), (B, b, [_uprop('NI_Number_Of_Scales', 2)])], chunks=chunks), G.seg([], meta=False, chunks=2)]))
     # (4) scaled
     if scaled:
         lin = [_uprop('NI_Number_Of_Scales', 1), _sprop('NI_Scale[0]_Scale_Type', 'Linear'),
